@@ -98,6 +98,36 @@ pub fn braid_closure(strands: usize, word: &[i32]) -> Option<Pd> {
     Some(pd)
 }
 
+/// torus link T(p,q) as the closure of (s_1 ... s_{p-1})^q; `sign` = +1 / -1 mirrors it
+pub fn torus(p: usize, q: usize, sign: i32) -> Pd {
+    let mut word = vec![];
+    for _ in 0..q {
+        for i in 1..p {
+            word.push(sign * i as i32);
+        }
+    }
+    braid_closure(p, &word).expect("every strand of a torus braid is touched")
+}
+
+/// connected sum of two knot diagrams: cut edge `ea` of a and edge `eb` of b (both oriented by the
+/// reference model) and reconnect crosswise
+pub fn connected_sum(a: &Pd, b: &Pd) -> Pd {
+    let off = a.iter().flat_map(|x| x.iter()).max().copied().unwrap_or(0);
+    let b: Pd = b.iter().map(|x| [x[0] + off, x[1] + off, x[2] + off, x[3] + off]).collect();
+    let (da, db) = (Diagram::from_pd(a), Diagram::from_pd(&b));
+    let (oa, ob) = (da.orientation().expect("valid"), db.orientation().expect("valid"));
+    let (ea, eb) = (da.edges()[0], db.edges()[0]);
+    // a: ... -> [tail] ea [head] -> ... ; b likewise.  New: the head end of ea gets label eb's ... i.e.
+    // swap the head ends: ea now runs from a's tail into b's head slot, eb from b's tail into a's head slot
+    let (ha, hb) = (oa.head[&ea], ob.head[&eb]);
+    let mut out = a.clone();
+    let na = out.len();
+    out.extend(b);
+    out[ha.0][ha.1] = eb;
+    out[na + hb.0][hb.1] = ea;
+    out
+}
+
 pub fn crossing_count(pd: &Pd) -> usize {
     pd.len()
 }
@@ -141,6 +171,14 @@ fn draw_once(rng: &mut Rng) -> (String, Pd) {
                 None => ("3_1".into(), table("3_1")),
             }
         }
+        6 => {
+            // connected sum of two small diagrams (checked against the cube reference like any other)
+            let a = *rng.pick(&["3_1", "4_1", "5_2", "L2a1"]);
+            let b = *rng.pick(&["3_1", "4_1", "L2a1"]);
+            let (pa, pb) = (table(a), table(b));
+            let pa = if rng.chance(1, 2) { mirror(&pa) } else { pa };
+            (format!("{a}#{b}"), connected_sum(&pa, &pb))
+        }
         5 => {
             // split union of two small diagrams
             let a = *rng.pick(&["3_1", "L2a1", "4_1"]);
@@ -163,4 +201,32 @@ fn draw_once(rng: &mut Rng) -> (String, Pd) {
             (name, pd)
         }
     }
+}
+
+/// Big diagrams (15-30 crossings): far beyond the cube reference, used with route-agreement,
+/// universal-coefficient and cross-run oracles.  They are where torsion other than Z/2 lives
+/// (Z/4 in T(4,5), Z/3 and Z/5 in T(5,6)) and where size-gated code paths are reached.
+pub fn draw_big(rng: &mut Rng, thorough: bool) -> (String, Pd) {
+    let hopf = table("L2a1");
+    let mut menu: Vec<(String, Pd)> = vec![
+        ("T(4,5)".into(), torus(4, 5, 1)),
+        ("T(3,7)".into(), torus(3, 7, 1)),
+        ("T(3,8)".into(), torus(3, 8, 1)),
+        ("T(4,5)#L2a1".into(), connected_sum(&torus(4, 5, 1), &hopf)),
+        ("T(4,5)#3_1".into(), connected_sum(&torus(4, 5, 1), &table("3_1"))),
+        ("T(4,5)#T(2,5)".into(), connected_sum(&torus(4, 5, 1), &torus(2, 5, 1))),
+        ("T(4,4)".into(), torus(4, 4, 1)),
+    ];
+    if thorough {
+        menu.push(("T(5,6)".into(), torus(5, 6, 1)));
+        menu.push(("T(4,7)".into(), torus(4, 7, 1)));
+    }
+    let (name, pd) = menu.swap_remove(rng.below(menu.len() as u64) as usize);
+    if rng.chance(1, 3) { (name + "m", mirror(&pd)) } else { (name, pd) }
+}
+
+/// the largest diagrams (thorough tier of C01 only): enough edges per gluing step for batched
+/// insertion paths
+pub fn draw_giant(rng: &mut Rng) -> (String, Pd) {
+    if rng.chance(1, 2) { ("T(6,6)".into(), torus(6, 6, 1)) } else { ("T(5,7)".into(), torus(5, 7, 1)) }
 }
